@@ -100,11 +100,23 @@ def part_a(tier, seed, out):
                           per_job_timeout=90, stderr_out=proc_err)
     races = 0
     # ThreadSanitizer writes its reports to the process's stderr (not attributable to one job of the batch)
-    reports = [e for e in proc_err if "ThreadSanitizer" in e]
+    def in_interpreter(report):
+        """a report counts only if BOTH conflicting accesses happen in the interpreter's own code (src/bloch/...):
+        an access made by this harness (its event sink, its result writer) is not the property's business"""
+        keep = []
+        for block in report.split("WARNING: ThreadSanitizer")[1:]:
+            parts = block.split("\n\n")
+            stacks = [p_ for p_ in parts if p_.lstrip().startswith(("Read of", "Write of", "Previous read", "Previous write", "Atomic", "Previous atomic"))]
+            if len(stacks) >= 2 and all("/src/bloch/" in st for st in stacks[:2]):
+                keep.append("WARNING: ThreadSanitizer" + block)
+            elif len(stacks) < 2 and "/src/bloch/" in block:
+                keep.append("WARNING: ThreadSanitizer" + block)    # other report kinds (lock order, use after free ...)
+        return keep
+    reports = [k for e in proc_err if "ThreadSanitizer" in e for k in in_interpreter(e)]
     if reports:
         races += 1
         first = reports[0]
-        i0 = first.find("WARNING: ThreadSanitizer")
+        i0 = 0
         out.violation("ThreadSanitizer reports a data race between the timer thread and the interpreter (%d process reports)" % len(reports),
                       {"report": first[i0:i0 + 5000], "programs": [j["src"] for j in jobs[:2]]}, "race")
     tmp = vlib.scratch("gctrace")
